@@ -1,9 +1,13 @@
-// Engine `pkireload` (C42): sequences of inline-PEM configurations through the real PKI.reloadCerts /
-// PKI.reloadCAPool (hooks in verif_pkireload.go), each call inside its own synctest bubble whose virtual clock
-// is the case's accumulated `sleep`.
+// Engine `pkireload` (C42): sequences of inline-PEM configurations through the real entry points — the first load
+// is nebula.NewPKIFromConfig on a fresh config.C, every later one is config.C.ReloadConfigString, i.e. the reload
+// callback NewPKIFromConfig registered (PKI.reload as a whole, not its two halves). What was refused is read off
+// the log records the reload emits (a slog handler that keeps them); the state in use afterwards is read through
+// PKI.VerifCertState (verif_pkireload.go) and PKI.GetCAPool. Each call runs inside its own synctest bubble whose
+// virtual clock is the case's accumulated `sleep`.
 package pkireload
 
 import (
+	"context"
 	"encoding/pem"
 	"errors"
 	"fmt"
@@ -140,14 +144,44 @@ func sig8(c cert.Certificate) string {
 	return hlib.Hex(s)
 }
 
+// keep is a slog handler that keeps every record of the current op.
+type keep struct{ recs *[]slog.Record }
+
+func (k keep) Enabled(context.Context, slog.Level) bool { return true }
+func (k keep) Handle(_ context.Context, r slog.Record) error {
+	*k.recs = append(*k.recs, r.Clone())
+	return nil
+}
+func (k keep) WithAttrs([]slog.Attr) slog.Handler { return k }
+func (k keep) WithGroup(string) slog.Handler      { return k }
+
+const caContext = "Failed to load ca from config"
+
+// fromRecord rebuilds the ContextualError an error-level record was logged from (ContextualError.Log: message =
+// Context, attributes = Fields plus "error" = RealError).
+func fromRecord(r slog.Record) *util.ContextualError {
+	ce := &util.ContextualError{Context: r.Message, Fields: map[string]any{}}
+	r.Attrs(func(a slog.Attr) bool {
+		if a.Key == "error" {
+			ce.RealError = errors.New(a.Value.String())
+		} else {
+			ce.Fields[a.Key] = a.Value.Any()
+		}
+		return true
+	})
+	return ce
+}
+
 func newExec(t *testing.T) func([]string) string {
-	l := slog.New(slog.DiscardHandler)
-	pki := nebula.VerifNewPKI(l)
+	var recs []slog.Record
+	l := slog.New(keep{&recs})
+	var pki *nebula.PKI
+	var cfg *config.C
 	var clock time.Duration
 	return func(a []string) string {
 		switch a[0] {
 		case "reset":
-			pki = nebula.VerifNewPKI(l)
+			pki, cfg = nil, nil
 			clock = 0
 			return "ok"
 		case "reload":
@@ -155,7 +189,7 @@ func newExec(t *testing.T) func([]string) string {
 				return "bad-op"
 			}
 			initial := a[1] == "1"
-			if _, _, _, _, loaded := pki.VerifCertState(); !initial && !loaded {
+			if !initial && pki == nil {
 				return "not-loaded" // a reload before the first successful load cannot happen (NewPKIFromConfig fails)
 			}
 			clock += time.Duration(hlib.Atoi(a[2]))
@@ -239,26 +273,60 @@ func newExec(t *testing.T) func([]string) string {
 			if len(rest) != 0 {
 				return "bad-op"
 			}
-			c := config.NewC(l)
-			if err := c.LoadString(y.String()); err != nil {
-				return "bad-op yaml " + err.Error()
-			}
+			recs = recs[:0]
 			var certErr, caErr error
-			caRan := false
-			synctest.Test(t, func(t *testing.T) {
-				time.Sleep(clock)
-				certErr = pki.VerifReloadCerts(c, initial)
-				if certErr != nil && initial {
-					return
-				}
-				caRan = true
-				caErr = pki.VerifReloadCAPool(c)
-			})
 			caTok := "-"
-			if caRan {
-				caTok = caKind(caErr)
+			if initial {
+				// what main does: a fresh configuration, then NewPKIFromConfig (the first error aborts, no PKI)
+				c := config.NewC(l)
+				if err := c.LoadString(y.String()); err != nil {
+					return "bad-op yaml " + err.Error()
+				}
+				var err error
+				var np *nebula.PKI
+				synctest.Test(t, func(t *testing.T) {
+					time.Sleep(clock)
+					np, err = nebula.NewPKIFromConfig(l, c)
+				})
+				pki, cfg = np, c
+				if err != nil {
+					pki, cfg = nil, nil
+					var ce *util.ContextualError
+					if errors.As(err, &ce) && ce.Context == caContext {
+						caErr = err
+						caTok = caKind(err)
+					} else {
+						certErr = err
+					}
+				} else {
+					caTok = "ok"
+				}
+			} else {
+				// a SIGHUP: the registered reload callbacks run on the new settings; refusals are only logged
+				var lerr error
+				synctest.Test(t, func(t *testing.T) {
+					time.Sleep(clock)
+					lerr = cfg.ReloadConfigString(y.String())
+				})
+				if lerr != nil {
+					return "bad-op yaml " + lerr.Error()
+				}
+				for _, r := range recs {
+					switch {
+					case r.Level == slog.LevelError && r.Message == caContext:
+						caErr = fromRecord(r)
+						caTok = caKind(caErr)
+					case r.Level == slog.LevelError:
+						certErr = fromRecord(r)
+					case r.Level == slog.LevelDebug && r.Message == "Trusted CA fingerprints":
+						caTok = "ok" // reloadCAPool ran and stored a pool
+					}
+				}
 			}
 			st := "iv=- curve=- nets=- v1=- v2=-"
+			if pki == nil {
+				return fmt.Sprintf("%s %s %s cas=- bl=0", certKind(certErr), caTok, st)
+			}
 			if v1, v2, nets, iv, ok := pki.VerifCertState(); ok {
 				curve := cert.Curve(0)
 				if v2 != nil {
@@ -372,6 +440,7 @@ func gen(r *hlib.Rand, n int, tier, profile string, emit func(string, ...any)) {
 		expiredCA := newAuthority(r, cert.Curve_CURVE25519, T0-86400, T0-10, true)
 		soonCA := newAuthority(r, cert.Curve_CURVE25519, T0-86400, T0+50, true)
 		notCA := newAuthority(r, cert.Curve_CURVE25519, T0-86400, T0+86400, false)
+		extraCA := newAuthority(r, cert.Curve(r.Intn(2)), T0-86400, T0+86400*30, true) // a valid CA that signs nothing here
 		keys := []*hostKey{newHostKey(cert.Curve_CURVE25519), newHostKey(cert.Curve_CURVE25519), newHostKey(cert.Curve_P256)}
 		curKey := keys[hlib.Pick(r, 0, 0, 2)]
 		curNets := netSets[r.Intn(len(netSets))]
@@ -455,7 +524,11 @@ func gen(r *hlib.Rand, n int, tier, profile string, emit func(string, ...any)) {
 			// CA bundle
 			var bundle []*authority
 			nca := 0
-			switch r.Intn(12) {
+			switch r.Intn(14) {
+			case 12: // the trust store changes although (maybe) the host certificate is refused
+				bundle = []*authority{ca, extraCA}
+			case 13:
+				bundle = []*authority{extraCA}
 			case 0:
 				nca = -1
 			case 1:
